@@ -1,6 +1,7 @@
 """Shared pieces of the property simulations: schedules, violation records,
 scenario surgery used by the minimiser."""
 import copy
+import time
 import traceback
 
 from . import chaos
@@ -68,12 +69,53 @@ class Outcome:
         }
 
 
+class _LibClock:
+    """CPU time spent inside library calls (vs. in the harness / reference);
+    reported when a run exceeds its CPU budget so that slowness of the
+    reference (e.g. polynomial blow-up) is never mistaken for a hang."""
+
+    def __init__(self):
+        self.lib = 0.0
+        self.since = None
+        self.component = None
+
+    def enter(self, component):
+        self.since = time.process_time()
+        self.component = component
+
+    def exit(self):
+        if self.since is not None:
+            self.lib += time.process_time() - self.since
+            self.since = None
+
+    def snapshot(self):
+        extra = (time.process_time() - self.since) if self.since is not None else 0.0
+        return {"lib_cpu": round(self.lib + extra, 2), "total_cpu": round(time.process_time(), 2),
+                "in_lib": self.since is not None, "component": self.component}
+
+
+LIBCLOCK = _LibClock()
+
+
+class libcall:
+    def __init__(self, component):
+        self.component = component
+
+    def __enter__(self):
+        LIBCLOCK.enter(self.component)
+
+    def __exit__(self, *a):
+        LIBCLOCK.exit()
+        return False
+
+
 def guarded(out, component, fn, sig=None, expect_exc=()):
     """Run one library call; an exception the reference does not also raise is
     recorded as a violation of class exc:<component>:<Type> (never a harness
     error: the call is the system under test)."""
     try:
-        return True, fn()
+        with libcall(component):
+            return True, fn()
     except expect_exc as e:  # noqa
         return False, e
     except chaos_passthrough as e:  # noqa
